@@ -24,8 +24,10 @@ FUNCS = ('_reparse_raw_base', '_reparse_raw_stmtlike', '_reparse_raw')
 SCRATCH = {'copy_root', 'copy', 'copya', 'copy_lines', 'a', 'copy_parent', 'copy_parenta'}          # `a` is only used as loop variable over walk(copy.a) / the copy path
 LIVE = {'self', 'root', 'stmtlike', 'stmtlikea', 'parent', 'parenta'}
 
+# module-level helpers that are called as pure predicates: checked to be pure here (only reads: no attribute / subscript stores, no calls but len / getattr)
+PURE_HELPERS = {'_is_header_scaffold'}
 PURE_CALLS = {'FST', 'bistr', 'len', 'getattr', 'isinstance', 'walk', 'parent_stmtlike', 'is_elif', '_loc_block_header_end', '_get_block_indent', 'c2b', 'strip', 'lstrip',
-              'startswith', 'index', 'next', 'bool', 'child_path', 'Pass', '_code_as_lines', 'child_from_path', 'join', 'compare_asts', 'zip', 'parents', 'endswith'}
+              'startswith', 'index', 'next', 'bool', 'child_path', 'Pass', '_code_as_lines', 'child_from_path', 'join', 'compare_asts', 'zip', 'parents', 'endswith'} | PURE_HELPERS
 RAISE_CALLS = {'fromsrc', 'parse_match_case', 'parse_ExceptHandler'}
 MUT_METHODS = {'_put_src', '_set_ast', '_touchall', '_touch', '_set_end_pos', '_unmake_fst_tree', 'set', 'append'}   # AMut or ACopy by receiver
 SETATTR = 'setattr'
@@ -283,6 +285,16 @@ def generate() -> list[str]:
     missing = [f for f in FUNCS if f not in defs]
     if missing:
         raise TranslationError(f'fst_raw.py: functions not found: {missing}')
+    for h in sorted(PURE_HELPERS):
+        if h not in defs:
+            raise TranslationError(f'fst_raw.py: pure helper {h} not found')
+        for n in ast.walk(defs[h]):
+            if isinstance(n, ast.Call) and not (isinstance(n.func, ast.Name) and n.func.id in ('len', 'getattr')):
+                raise TranslationError(f'line {n.lineno}: helper {h} assumed pure calls {ast.unparse(n.func)}')
+            if isinstance(n, (ast.Assign, ast.AugAssign, ast.AnnAssign, ast.Delete)):
+                raise TranslationError(f'line {n.lineno}: helper {h} assumed pure has an assignment statement')
+            if isinstance(n, (ast.Attribute, ast.Subscript)) and not isinstance(n.ctx, ast.Load):
+                raise TranslationError(f'line {n.lineno}: helper {h} assumed pure stores to {ast.unparse(n)}')
     _EXPAND_CACHE.clear()
     P = Paths(FUNCS)
     fpaths = {f: P.block(defs[f].body) for f in FUNCS}
